@@ -6,47 +6,7 @@
 // its results against the single-threaded oracle.  Monitor state is per thread
 // (merged after join) so the monitor adds no happens-before edges.
 #ifdef C18_LOCK_WRAPPER
-#  include <atomic>
-#  include <shared_mutex>
-#  include <thread>
-namespace c18 {
-inline std::atomic<uint64_t> contended_shared{ 0 }, contended_unique{ 0 }, acquisitions{ 0 };
-inline thread_local uint64_t yield_state = 88172645463325252ULL;
-inline void maybe_yield()
-{
-  // PRNG-driven delay between critical sections (never inside one)
-  yield_state ^= yield_state << 13; yield_state ^= yield_state >> 7; yield_state ^= yield_state << 17;
-  if ((yield_state & 7) == 0) std::this_thread::yield();
-  else if ((yield_state & 127) == 1) std::this_thread::sleep_for(std::chrono::microseconds(yield_state % 50));
-}
-struct Lock { std::shared_timed_mutex m; };
-struct SharedGuard
-{
-  Lock& l;
-  explicit SharedGuard(Lock& ll) : l(ll)
-  {
-    maybe_yield();
-    if (!l.m.try_lock_shared()) { contended_shared.fetch_add(1, std::memory_order_relaxed); l.m.lock_shared(); }
-    acquisitions.fetch_add(1, std::memory_order_relaxed);
-  }
-  ~SharedGuard() { l.m.unlock_shared(); maybe_yield(); }
-};
-struct UniqueGuard
-{
-  Lock& l;
-  explicit UniqueGuard(Lock& ll) : l(ll)
-  {
-    maybe_yield();
-    if (!l.m.try_lock()) { contended_unique.fetch_add(1, std::memory_order_relaxed); l.m.lock(); }
-    acquisitions.fetch_add(1, std::memory_order_relaxed);
-  }
-  ~UniqueGuard() { l.m.unlock(); maybe_yield(); }
-};
-}
-#  define RLBOX_USE_CUSTOM_SHARED_LOCK
-#  define RLBOX_SHARED_LOCK(name) ::c18::Lock name
-#  define RLBOX_ACQUIRE_SHARED_GUARD(name, ...) ::c18::SharedGuard name(__VA_ARGS__)
-#  define RLBOX_ACQUIRE_UNIQUE_GUARD(name, ...) ::c18::UniqueGuard name(__VA_ARGS__)
+#  include "lockwrap.hpp"
 #endif
 
 #include "backends.hpp"
@@ -203,9 +163,80 @@ static void worker(int tid, uint64_t seed, int steps, TResult* out, std::atomic<
   }
 }
 
+// Hand-off: a sandbox belongs to whichever thread uses it, not to the thread that happened to call create_sandbox on it (a
+// pool of sandboxes created up front and given to workers; a worker's sandbox torn down by the main thread after join).  At
+// every moment each instance is used by exactly one thread, thread start and join order the hand-over, and every thread must
+// observe what it would observe running alone with the same instances.
+template<typename B>
+static void exercise_handed_over(rlbox_sandbox<B>& sb, int libidx, mon::Rng& rng, TResult* out, const char* who)
+{
+  constexpr bool foreign = be::BT<B>::foreign;
+  auto bad = [&](const char* cls, const std::string& d) { if (out->viol.size() < 5) out->viol.push_back({ mon::fmt("C18/%s/hand-over/%s", be::BT<B>::name(), cls), mon::fmt("%s: %s", who, d.c_str()) }); };
+  try {
+    for (int k = 0; k < 8; k++) {
+      auto cell = sb.template malloc_in_sandbox<int*>();
+      auto tgt = sb.template malloc_in_sandbox<int>(8);
+      if (!cell || !tgt) { bad("allocation-failed", ""); return; }
+      auto t2 = tgt + static_cast<int>(rng.below(8));
+      *cell = t2;
+      tainted<int*, B> back = *cell;
+      out->xlate++;
+      if (back.UNSAFE_unverified() != t2.UNSAFE_unverified()) bad("pointer-translated-relative-to-another-sandbox", mon::fmt("stored %p, loaded %p", (void*)t2.UNSAFE_unverified(), (void*)back.UNSAFE_unverified()));
+      long a = static_cast<long>(rng.below(1000)), b = static_cast<long>(rng.below(1000));
+      long r = be::BT<B>::template invoke<long(long, long)>(sb, "add_q", a, b).UNSAFE_unverified();
+      long want = a + b + ((std::is_same_v<B, rlbox_dylib_sandbox> && libidx) ? 1000 : 0);
+      out->invokes++;
+      if (r != want) bad("invoke-wrong-result-or-library", mon::fmt("%ld+%ld -> %ld", a, b, r));
+      (void)foreign;
+      sb.free_in_sandbox(tgt);
+      sb.free_in_sandbox(cell);
+      out->ops += 4;
+    }
+    sb.destroy_sandbox();
+    out->destroys++;
+  } catch (const std::runtime_error& e) {
+    bad("operation-aborted-on-a-thread-other-than-the-creator", e.what());
+  }
+}
+
+template<typename B>
+static void handoff(int nthreads, int rounds, uint64_t seed)
+{
+  using sbx = rlbox_sandbox<B>;
+  mon::ctx("threads/%s | hand-over of sandboxes between the creating and the using thread, %d threads", be::BT<B>::name(), nthreads);
+  TResult tot;
+  for (int r = 0; r < rounds; r++) {
+    std::vector<std::unique_ptr<sbx>> made(nthreads), back(nthreads);
+    std::vector<TResult> res(nthreads);
+    for (int t = 0; t < nthreads; t++) { made[t] = std::make_unique<sbx>(); be::BT<B>::create(*made[t], t & 1); tot.creates++; }
+    std::vector<std::thread> th;
+    for (int t = 0; t < nthreads; t++)
+      th.emplace_back([&, t] {
+        mon::Rng rng(seed * 77 + r * 131 + t);
+        exercise_handed_over<B>(*made[t], t & 1, rng, &res[t], "sandbox created by the main thread, used and destroyed by a worker");
+        back[t] = std::make_unique<sbx>();
+        be::BT<B>::create(*back[t], (t + 1) & 1);
+        res[t].creates++;
+      });
+    for (auto& t : th) t.join();
+    for (int t = 0; t < nthreads; t++) {
+      mon::Rng rng(seed * 79 + r * 137 + t);
+      exercise_handed_over<B>(*back[t], (t + 1) & 1, rng, &res[t], "sandbox created by a worker, used and destroyed by the main thread after join");
+      for (auto& v : res[t].viol) mon::violation(v.first, v.second);
+      tot.ops += res[t].ops; tot.creates += res[t].creates; tot.destroys += res[t].destroys; tot.xlate += res[t].xlate; tot.invokes += res[t].invokes;
+    }
+    // an aborted destroy leaves the object half torn down: do not run its destructor logic further (leak it)
+    for (int t = 0; t < nthreads; t++) { if (!res[t].viol.empty()) { made[t].release(); back[t].release(); } }
+  }
+  mon::evals(tot.ops);
+  mon::hit("handed-over-sandbox-operations", tot.ops);
+  mon::hit("handed-over-sandboxes-destroyed-by-another-thread", tot.destroys);
+}
+
 template<typename B>
 static void run(int nthreads, int steps, uint64_t seed)
 {
+  handoff<B>(nthreads, 3, seed);
   std::vector<TResult> res(nthreads);
   std::vector<std::thread> th;
   // set once, before the workers exist: a crash in any of them is attributed to this workload (the thread-local operations
